@@ -471,7 +471,7 @@ func (l *Linter) resolveFileInclusion(
 			return statements
 		}
 	}
-	module, err := ctx.Restore().Resolver().Resolve(include)
+	module, err := ctx.Resolver().Resolve(include)
 	if err != nil {
 		e := &LintError{
 			Severity: ERROR,
